@@ -85,6 +85,7 @@ func runSyncScenario(t testing.TB, rec *vRec, sc *prodScenario) {
 		config.Producer.Idempotent = true
 		config.Net.MaxOpenRequests = 1
 	}
+	vUseDialer(config)
 	if err := config.Validate(); err != nil {
 		rec.Ev("skip", kv{"why": "config invalid: " + err.Error()})
 		return
